@@ -324,16 +324,6 @@ Proof.
 Qed.
 Lemma pitem_unlay_tr : forall it, tr_pitem (pitem_unlay it) = tr_pitem it.
 Proof. intros [v|a]; reflexivity. Qed.
-Lemma letter_not_ws : forall b, letter b -> is_whitespace b = false.
-Proof.
-  intros b Hb. unfold letter, is_ascii_alpha, is_ascii_upper, is_ascii_lower in Hb.
-  assert (65 <= b <= 122) by lia. unfold is_whitespace, in_ranges, whitespace_ranges.
-  destruct (N.ltb_spec b 9); [lia|]. destruct (N.leb_spec b 13); [lia|]. destruct (N.ltb_spec b 32); [lia|].
-  destruct (N.leb_spec b 32); [lia|]. destruct (N.ltb_spec b 133); [reflexivity|lia].
-Qed.
-Lemma letter_facts : forall b, letter b -> b < 128 /\ is_whitespace b = false /\ 65 <= b.
-Proof. intros b Hb. split; [|split; [now apply letter_not_ws|]]; unfold letter, is_ascii_alpha, is_ascii_upper, is_ascii_lower in Hb; lia. Qed.
-
 Lemma pitem_head : forall it f x, wf_pitem it f = true -> pitem_lay it = [] ->
   exists b t, pr_pitem it ++ x = b :: t /\ b < 128 /\ is_whitespace b = false /\ b <> 35 /\ b <> 42 /\
               (match it with PAgg _ => b <> 63 /\ b <> 36 | _ => True end).
